@@ -184,7 +184,7 @@ def check_value(view: SpecView, v: Any, t, grammar=None, path="$", siblings=None
         return errs
 
     def bad(kind, msg):
-        errs.append((kind, path, msg, type_form(t)))
+        errs.append((kind, path, msg, type_form(t), v))
 
     if isinstance(t, str):
         pyt = {"int": int, "bool": bool, "float": float, "str": str}[t]
@@ -265,7 +265,7 @@ def check_value(view: SpecView, v: Any, t, grammar=None, path="$", siblings=None
         if len(errs) == n0 and "ref" in what:
             r = mh_predicate(mh, v, siblings)
             if r is not None:
-                errs.append(("refinement", path, r, type_form(t)))
+                errs.append(("refinement", path, r, type_form(t), v))
         return errs
     raise ValueError(t)
 
